@@ -204,7 +204,7 @@ type schedEngine struct {
 	midArm        int32 // >0: park at the n-th visit of a stage by the root pipeline's scheduling loops
 	nstages       int
 	stageReleased map[string]bool
-	hasConds      bool // some stage of the world has a condition (a real fork)
+	hasConds      bool // some stage of the world has a condition (a real fork) or nests a pipeline (a second loop)
 }
 
 func (e *schedEngine) index(g *GraphSpec, parent *StageSpec) {
@@ -552,7 +552,9 @@ func RunSchedWorld(c *Ctl, prof *SchedProfile, g *GraphSpec, res *RunResult) {
 	}
 	e.index(g, nil)
 	for _, sp := range e.byName {
-		if sp.Cond != "" {
+		if sp.Cond != "" || sp.Nested != nil {
+			// (a nested pipeline means a second polling loop: which of two loops that wake at the
+			// same instant looks first is the runtime's choice too)
 			e.hasConds = true
 		}
 	}
@@ -691,7 +693,13 @@ func RunSchedWorld(c *Ctl, prof *SchedProfile, g *GraphSpec, res *RunResult) {
 			continue
 		}
 		idle = 0
-		if prof.AlwaysBar {
+		loopHeld := false
+		for _, q := range c.ParkedOf("preempt") {
+			if strings.HasPrefix(q.Key, "-/") {
+				loopHeld = true // the root loop is held between two statements: a task may complete first
+			}
+		}
+		if prof.AlwaysBar && !loopHeld {
 			if !e.barrier() {
 				break
 			}
@@ -736,6 +744,7 @@ func RunSchedWorld(c *Ctl, prof *SchedProfile, g *GraphSpec, res *RunResult) {
 				}
 				c.Release(parks[k], Action{Kind: "go"})
 				c.Quiesce()
+				vsync.ArmStmt(0, 0) // only within the nested loop's first, uninterrupted pass
 				e.settle()
 				c.holdBatch = false
 			} else {
